@@ -154,7 +154,13 @@ func SetTimestampSignature(mediaType string, envelope, token []byte) ([]byte, bo
 	} else {
 		unprotected[key] = token
 	}
-	ub, err := cbor.Marshal(unprotected)
+	// a Go map: encode with sorted keys, so that the bytes (and everything that depends on byte positions
+	// afterwards) do not depend on map iteration order
+	em, err := cbor.CoreDetEncOptions().EncMode()
+	if err != nil {
+		return nil, false
+	}
+	ub, err := em.Marshal(unprotected)
 	if err != nil {
 		return nil, false
 	}
